@@ -180,6 +180,37 @@ def correspondence(ctx):
     st["todo_request_sequences"] = ntodo
     return st, dis + tdis
 
+def _split_atom_chunk(args):
+    """`&tel { F ; G }` (one theory atom, two elements) versus `&tel { F }, &tel { G }` (two theory atoms), in constraints that do and do
+    not look ahead, in programs that own F or a super-formula of F elsewhere; all statement orders of the variant"""
+    seed, n = args
+    r = random.Random(seed)
+    F = ["a", "a | b", "< a", "<? a", "a <? b", "~ a", "> a", "a & ~ b", "&initial"]
+    G = ["> b", "b", "<* b", "~ b", ">? b", "c | < b"]
+    fails, cnt = [], 0
+    for _ in range(n):
+        f, g = r.choice(F), r.choice(G)
+        sup = r.choice([f, "({}) | c".format(f), "({}) & ~ c".format(f), "< ({})".format(f)])
+        own = r.choice([":- not &tel {{ {} }}.", "w :- not not &tel {{ {} }}.", ":- &tel {{ {} }}, not c."]).format(sup)
+        guard = r.choice(["c'", "not c'", "c''", "c", "not b'"])
+        part = r.choice(["initial", "always", "dynamic"])
+        one = ":- &tel {{ {} ; {} }}, {}.".format(f, g, guard)
+        two = ":- &tel {{ {} }}, &tel {{ {} }}, {}.".format(f, g, guard)
+        head = "#program always. {a;b;c}. #program " + part + ". "
+        t1 = head + own + " " + one
+        variants = [head + own + " " + two, head + two + " " + own, head + two + "\n#program " + part + ". " + own + " " + two]
+        r1 = oracles.impl_models(t1, 2, dedup=True)
+        for t2 in variants:
+            cnt += 1
+            r2 = oracles.impl_models(t2, 2, dedup=True)
+            if "Timeout" in (r1[1], r2[1]):
+                continue
+            if r1 != r2:
+                fails.append({"kind": "split-theory-atom", "text": t1 + "\n%%% versus\n" + t2, "input": [t1, t2],
+                              "one_atom": str(r1)[:300], "several_atoms": str(r2)[:300]})
+                break
+    return cnt, fails
+
 def search(ctx, deep):
     n = (30 if ctx.tier == "quick" else 400) * (3 if deep else 1)
     H = 2
@@ -193,8 +224,12 @@ def search(ctx, deep):
     for c, f in par.pmap(_cli_chunk, [(ctx.seed * 1013 + j, 2 if ctx.tier == "quick" else 8) for j in range(ctx.jobs)], ctx.jobs):
         ncli += c
         fails += f
+    nsplit = 0
+    for c, f in par.pmap(_split_atom_chunk, [(ctx.seed * 1019 + j, 4 if ctx.tier == "quick" else 40) for j in range(ctx.jobs)], ctx.jobs):
+        nsplit += c
+        fails += f
     rr = random.Random(ctx.seed)
-    return {"base_programs": n * ctx.jobs, "command_line_layouts": ncli, "variants_compared": nvar, "horizons": "0..{}".format(H),
+    return {"base_programs": n * ctx.jobs, "command_line_layouts": ncli, "variants_compared": nvar, "theory_atom_split_variants": nsplit, "horizons": "0..{}".format(H),
             "variant_kinds": ["permuted", "duplicated", "two files", "three files, permuted", "one rule per file"],
             "sample": {"program": tl.render_prog(gen_base(rr))}}, fails
 
